@@ -79,6 +79,7 @@ void * realloc(void * ptr, size_t size)
  * pool addresses BEFORE they dereference it, so a stray pointer produced by the library shows up
  * as a failed VF_ASSERT ("every chain node is an inserted element") instead. */
 #ifndef VF_NATIVE
+#pragma CPROVER check push
 #pragma CPROVER check disable "pointer"
 #pragma CPROVER check disable "pointer-primitive"
 #pragma CPROVER check disable "pointer-overflow"
